@@ -1013,10 +1013,17 @@ fn main() {
     // through affine region cells, and each locally consistent alternative is replayed on the real
     // circuit with the witness generation continuing from it.
     {
-        let c = zbytes(ByteHash::Sha256, 3, "counter");
-        // quick: the last three instances of every region name (late rounds work on mixed state)
-        let per_kind = tier.pick(3usize, usize::MAX);
+        // SHA-256: quick takes the last three instances of every region name (late rounds work on
+        // mixed state), thorough every region. Thorough also takes the last three instances of
+        // every region name of the other byte hashes of the standard library.
+        let mut subjects: Vec<(ZCase, usize)> = vec![(zbytes(ByteHash::Sha256, 3, "counter"), tier.pick(3usize, usize::MAX))];
+        if thorough {
+            for h in [ByteHash::Sha512, ByteHash::Sha3_256, ByteHash::Keccak256, ByteHash::Blake2b256] {
+                subjects.push((zbytes(h, 1, "seeded"), 3));
+            }
+        }
         let mut ljobs: Vec<(String, (ZCase, u32, Vec<u32>))> = vec![];
+        for (c, per_kind) in subjects {
         if let Some((_, _, k)) = sizes.get(&c.key()).copied() {
             if let Some(regs) = vcore::in_pool(1, || vgad::laws::regions_of(&c, k)) {
                 let mut seen: HashMap<String, usize> = HashMap::new();
@@ -1034,6 +1041,9 @@ fn main() {
                     ljobs.push((format!("{}#laws{ci}", c.key()), (c.clone(), k, ch.to_vec())));
                 }
             }
+        } else {
+            cx.note(format!("laws: {} has no accepted honest run in this tier, skipped", c.key()));
+        }
         }
         let cfg = vgad::laws::Cfg::default();
         cx.run_cases("laws", &ljobs, |(c, k, rids)| {
